@@ -59,6 +59,27 @@ C03Classes == {"Cuboid", "Cylinder", "CylinderSegment", "Sphere", "Tetrahedron",
 C03Base(c, mode) == LET s == C03Src(c) IN
   IF mode = "pts" THEN Cfg(4, <<s>>, C03Pts, NoSensor)
   ELSE Cfg(4, <<s>>, C03Pix, [on |-> TRUE, path |-> SPath(IF Len(s.path) = 1 THEN 3 ELSE Len(s.path))])
+\* paths of UNEQUAL lengths in one call (a shorter path stays at its last pose): sources of 2 and 3 steps with changing orientation
+\* next to a source of 5 steps, read at points or through a sensor of 5 steps
+Path5 == <<Pose(<<-10, -8, 6>>, Rz90), Pose(<<-10, -6, 8>>, Rx90), Pose(<<-8, -8, 8>>, RyRx), Pose(<<-10, -10, 10>>, IdM), Pose(<<-8, -6, 10>>, Tr(R111))>>
+Path2b == <<Pose(<<8, 8, 6>>, Ry90), Pose(<<10, 6, 8>>, RxRz)>>
+UnequalSrcs == <<Src("Cuboid", <<4, 8, 12>>, <<1, 2, 3>>, Path3), Src("Circle", <<8>>, <<2>>, Path2b), Src("Sphere", <<4>>, <<3, -1, 2>>, Path5)>>
+C03Unequal(mode) == IF mode = "pts" THEN Cfg(4, UnequalSrcs, C03Pts, NoSensor)
+                    ELSE Cfg(4, SubSeq(UnequalSrcs, 1, 2), C03Pix, [on |-> TRUE, path |-> Path5])
+\* bases that are ALSO concretized by their small-angle image (fine steps within a path and between the sources of one group); the
+\* first source starts unrotated: in the canonical frame its first quaternion has a zero vector part
+FPath3 == <<Pose(<<2, -4, 6>>, IdM), Pose(<<4, -2, 6>>, Rx90), Pose(<<2, -2, 8>>, RxRz)>>
+FPath4 == <<Pose(<<2, -4, 6>>, IdM), Pose(<<4, -2, 6>>, Rz90), Pose(<<2, -2, 8>>, RyRx), Pose(<<4, -4, 8>>, R111)>>
+FineSrc(c) == CASE c = "FineCuboid" -> <<Src("Cuboid", <<4, 8, 12>>, <<1, 2, 3>>, FPath3)>>
+                [] c = "FineCircle" -> <<Src("Circle", <<8>>, <<2>>, FPath4)>>
+                [] c = "FineTetra" -> <<Src("Tetrahedron", TetV(1), <<1, 2, 3>>, FPath3)>>
+                \* one group: two cuboids tilted against each other, the second one with a short path
+                [] c = "FineGroup" -> <<Src("Cuboid", <<4, 8, 12>>, <<1, 2, 3>>, <<Pose(<<2, -4, 6>>, IdM)>>),
+                                        Src("Cuboid", <<8, 4, 4>>, <<2, -1, 3>>, <<Pose(<<-12, 10, -8>>, Rz90), Pose(<<-10, 10, -8>>, RyRx)>>)>>
+FineIds == {"FineCuboid", "FineCircle", "FineTetra", "FineGroup"}
+FinePts == <<Obs(<<9, 3, -5>>, "gen"), Obs(<<-7, 5, 11>>, "gen"), Obs(<<3, -5, 7>>, "gen"), Obs(<<801, -603, 1005>>, "far")>>
+C03Fine(c, mode) == IF mode = "pts" THEN Cfg(4, FineSrc(c), FinePts, NoSensor)
+                    ELSE Cfg(4, FineSrc(c), C03Pix, [on |-> TRUE, path |-> SPath(4) \o <<Pose(<<-8, 4, 2>>, IdM)>>])
 \* two sources of different kinds with paths of different length in one scene
 C03Pair == Cfg(4, <<Src("Cuboid", <<4, 8, 12>>, <<1, 2, 3>>, Path3), Src("Circle", <<8>>, <<2>>, <<Pose(<<-8, 6, -10>>, RxRz)>>)>>, C03Pts, NoSensor)
 
@@ -139,10 +160,11 @@ PExtB == Pose(<<-4, 2, 6>>, Rz90)
 C13Ext == [CuboidExtA |-> Cfg(4, <<Src("Cuboid", <<4, 8, 12>>, <<1, 2, 3>>, <<PExtA>>)>>, ExtObs(PExtA), NoSensor),
            CuboidExtB |-> Cfg(4, <<Src("Cuboid", <<4, 8, 12>>, <<3, -1, 2>>, <<PExtB>>)>>, ExtObs(PExtB), NoSensor)]
 
-BaseIds == CASE Mode = "C03" -> {<<c, m>> : c \in C03Classes, m \in {"pts", "sens"}} \cup {<<"Pair", "pts">>}
+BaseIds == CASE Mode = "C03" -> {<<c, m>> : c \in C03Classes \cup FineIds \cup {"Unequal"}, m \in {"pts", "sens"}} \cup {<<"Pair", "pts">>}
              [] Mode = "C12" -> {<<id, "pts">> : id \in C12Ids}
              [] Mode = "C13" -> {<<id, "pts">> : id \in C13Ids} \cup {<<id, "ext">> : id \in DOMAIN C13Ext}
-BaseCfg(b) == CASE Mode = "C03" -> (IF b[1] = "Pair" THEN C03Pair ELSE C03Base(b[1], b[2]))
+BaseCfg(b) == CASE Mode = "C03" -> (IF b[1] = "Pair" THEN C03Pair ELSE IF b[1] = "Unequal" THEN C03Unequal(b[2])
+                                    ELSE IF b[1] \in FineIds THEN C03Fine(b[1], b[2]) ELSE C03Base(b[1], b[2]))
                 [] Mode = "C12" -> C12Base(b[1])
                 [] Mode = "C13" -> (IF b[2] = "ext" THEN C13Ext[b[1]] ELSE C13Defs[b[1]])
 
@@ -185,12 +207,14 @@ ReprActs(cfg, d) ==
   \cup {[name |-> "Merge", i |-> i] : i \in I}
 \* the same abstract configuration under another generic global rotation: base configurations and a few moved ones
 Regauge(d, lst) == IF d = 0 \/ (d = 1 /\ M3(lst.g) \in Gens) THEN {[name |-> "Reconcretize"]} ELSE {}
-Acts(cfg, d, lst) == CASE Mode = "C03" -> MoveActs(d) \cup Regauge(d, lst)
+\* the static placements of a configuration with paths: base configurations and a few moved ones
+Placements(cfg, d, lst) == IF PathLen(cfg) > 1 /\ (d = 0 \/ (d = 1 /\ M3(lst.g) \in Gens)) THEN {[name |-> "Freeze", m |-> m] : m \in 1..PathLen(cfg)} ELSE {}
+Acts(cfg, d, lst) == CASE Mode = "C03" -> MoveActs(d) \cup Regauge(d, lst) \cup Placements(cfg, d, lst)
                        [] Mode = "C12" -> UnitActs(d, lst)
                        [] Mode = "C13" -> ReprActs(cfg, d)
 
 Init == \E b \in BaseIds : base = b /\ cur = BaseCfg(b) /\ prev = BaseCfg(b) /\ last = [name |-> "Init"] /\ n = 0
-Next == /\ n < Depth /\ last.name # "Reconcretize"
+Next == /\ n < Depth /\ last.name \notin {"Reconcretize", "Freeze"}
         /\ (base[2] = "ext" => n < 2)
         /\ \E act \in Acts(cur, n, last) :
               /\ EnabledAct(cur, act)
@@ -205,7 +229,8 @@ Inv_Labels == n = 0 => LabelsOK(cur)
 Inv_Step == n = 0 \/ Premise(prev, last, cur)
 \* C03: along the whole behaviour the relative placement of every observer and every source is the one of the base
 \* configuration and all orientations stay in the group
-Inv_C03 == Mode = "C03" => /\ Len(cur.srcs) = Len(BaseCfg(base).srcs) /\ LocalInvariant(BaseCfg(base), cur)
+Inv_C03 == Mode = "C03" => /\ Len(cur.srcs) = Len(BaseCfg(base).srcs) /\ (last.name # "Freeze" => LocalInvariant(BaseCfg(base), cur))
+                           /\ (base[1] \in FineIds => FinePremise(cur))
                            /\ \A s \in 1..Len(cur.srcs) : \A i \in 1..Len(cur.srcs[s].path) : cur.srcs[s].path[i].r \in Rots
 \* C12: only the unit, the excitation decade and the sign of the excitation ever change
 Inv_C12 == Mode = "C12" => LET b == BaseCfg(base) IN
